@@ -1,0 +1,137 @@
+//go:build verif
+
+package parser
+
+import "sync"
+
+// Verification hooks, compiled in with the build tag "verif" only. Every
+// synchronisation operation of the lexer/parser pair reports to VerifHook
+// before it is performed, so that a controller can decide which goroutine
+// proceeds. With VerifHook == nil the hooks do nothing.
+
+const (
+	vStart = iota
+	vExit
+	vSpawn
+	vRecv
+	vSend
+	vSendPost
+	vErr
+	vReadErr
+	vCopyErr
+	vJoin
+	vHPush
+	vHPop
+	vHWait
+	vReturn
+)
+
+// Kinds of hooked operations.
+const (
+	VStart    = vStart    // first statement of a lexer goroutine
+	VExit     = vExit     // last deferred statement of a lexer goroutine
+	VSpawn    = vSpawn    // a lexer goroutine is about to be started (reported by the parent)
+	VRecv     = vRecv     // Lex: before the receive from the token channel
+	VSend     = vSend     // emit: before the select
+	VSendPost = vSendPost // emit: after the select
+	VErr      = vErr      // entry of lexer.error
+	VReadErr  = vReadErr  // read: a read error is about to be recorded
+	VCopyErr  = vCopyErr  // scanCmdSubst: the nested lexer's error is about to be copied
+	VJoin     = vJoin     // scanCmdSubst: before waiting for the nested lexer
+	VHPush    = vHPush    // heredoc.push
+	VHPop     = vHPop     // heredoc.pop: before the queue is inspected
+	VHWait    = vHWait    // heredoc.pop: before waiting for the parser
+	VReturn   = vReturn   // ParseCommands: before the results are read
+)
+
+// VerifEvent describes a hooked operation.
+type VerifEvent struct {
+	Kind   int
+	Lex    interface{} // identity of the lexer
+	Parent interface{} // VSpawn: the spawning lexer, or nil
+	Queue  interface{} // identity of the here-document queue the operation works on
+	// state accessors; valid while every goroutine is parked
+	CancelClosed func() bool
+	WakeReady    func() bool
+}
+
+// VerifHook receives every hooked operation. For VSend it returns true when
+// the lexer has to take the cancel branch of the select.
+var VerifHook func(ev *VerifEvent) bool
+
+var (
+	vmu    sync.Mutex
+	vsaved = make(map[*lexer]chan struct{})
+)
+
+func (l *lexer) vev(kind int) *VerifEvent {
+	return &VerifEvent{
+		Kind:  kind,
+		Lex:   l,
+		Queue: &l.heredoc,
+		CancelClosed: func() bool {
+			select {
+			case <-l.cancel:
+				return true
+			default:
+				return false
+			}
+		},
+		WakeReady: func() bool { return len(l.heredoc.c) > 0 },
+	}
+}
+
+func vpoint(l *lexer, kind int) {
+	if h := VerifHook; h != nil {
+		h(l.vev(kind))
+	}
+}
+
+func vhpoint(q *heredoc, kind int) {
+	if h := VerifHook; h != nil {
+		h(&VerifEvent{
+			Kind:      kind,
+			Queue:     q,
+			WakeReady: func() bool { return len(q.c) > 0 },
+		})
+	}
+}
+
+func vspawn(parent, l *lexer) {
+	if h := VerifHook; h != nil {
+		ev := l.vev(vSpawn)
+		if parent != nil {
+			ev.Parent = parent
+		}
+		h(ev)
+	}
+}
+
+// vsend is called before the select in emit. When the controller decides on
+// the hand-off although cancel is already closed, cancel is hidden behind an
+// open channel for the duration of the rendezvous, so that the real select
+// can only send; vsendPost restores it.
+func vsend(l *lexer) {
+	if h := VerifHook; h != nil {
+		ev := l.vev(vSend)
+		cancel := h(ev)
+		if !cancel && ev.CancelClosed() {
+			vmu.Lock()
+			vsaved[l] = l.cancel
+			vmu.Unlock()
+			l.cancel = make(chan struct{})
+		}
+	}
+}
+
+func vsendPost(l *lexer) {
+	if h := VerifHook; h != nil {
+		vmu.Lock()
+		if c, ok := vsaved[l]; ok {
+			l.cancel = c
+			delete(vsaved, l)
+		}
+		vmu.Unlock()
+		h(l.vev(vSendPost))
+	}
+}
